@@ -68,6 +68,11 @@ def key_to_ns(k):
     return sec * 10 ** 9 + int(s[16:25])
 
 
+class MalformedReference(Exception):
+    """a run on one source alone prints a message without its datetime field, or a different number of messages with
+    and without the prepended fields: decoration is then not 'pure' and no reconstruction is possible"""
+
+
 class Source:
     def __init__(self, arg, display, msgs):
         self.arg = arg            # path as passed
@@ -101,9 +106,14 @@ def load_source(work, arg, known_ns=None):
     last = chunks.pop()
     if last not in (b"", b"\n"):
         raise common.MachineryError("unexpected tail after last separator for %s: %r" % (arg, last[:40]))
-    ref, _tail, _ = oracle.single_source_messages(arg, work)
+    try:
+        ref, _tail, _ = oracle.single_source_messages(arg, work)
+    except common.MachineryError as e:
+        if "without datetime" not in str(e):
+            raise
+        raise MalformedReference("%s alone with %s: %s" % (arg, " ".join(oracle.DEC_ARGS), e))
     if len(ref) != len(chunks):
-        raise common.MachineryError("reference runs disagree on the message count for %s" % arg)
+        raise MalformedReference("%s alone: %d messages with -n -u -d ..., %d messages undecorated" % (arg, len(ref), len(chunks)))
     ns = [key_to_ns(k) for k, _ in ref]
     src = Source(arg, os.path.basename(arg), list(zip(ns, chunks)))
     src.truth_mismatch = None
@@ -201,11 +211,16 @@ def build_sets(work, tier):
     sets.append(("s1", ["a.log", "sub/日本語のログ.log", "x.wtmp", "é.log"],
                  {"a.log": [(E * 1000 + 1000) * ms, (E * 1000 + 3000) * ms, (E * 1000 + 3000) * ms]}))
     # S4: lines longer than the printer's write buffer; the widest-named source prints nothing
-    long_msgs = [(E * 1000 + 1000 * i, b"L" * n, [b"c" * m] if m else []) for i, (n, m) in enumerate([(10, 0), (2030, 0), (2031, 0), (2056, 0), (5, 2057), (5000, 3000), (7, 0)])]
+    shapes = [(10, 0), (2030, 0), (2031, 0), (2056, 0), (5, 2057), (5000, 3000), (7, 0),
+              # messages longer than the write buffer in total whose lines each fit into it; lines just below the buffer size
+              (1200, 1200), (1500, 700), (2020, 20), (600, 1450)] + [(n, 0) for n in range(1960, 2036, 5)]
+    long_msgs = [(E * 1000 + 1000 * i, b"L" * n, [b"c" * m] if m else []) for i, (n, m) in enumerate(shapes)]
     common.write_file(os.path.join(work, "s4", "long.log"), gen.text_log(long_msgs))
+    # a second source with a message between any two of long.log's
+    common.write_file(os.path.join(work, "s4", "between.log"), gen.text_log([(E * 1000 + 1000 * i + 700, b"between %d" % i) for i in range(len(shapes))]))
     common.write_file(os.path.join(work, "s4", "the-widest-name-of-all-prints-nothing.log"), b"no timestamp in here\nnor here\n")
     common.write_file(os.path.join(work, "s4", "b.log"), gen.text_log([(E * 1000 + 1500, b"short")]))
-    sets.append(("s4", ["long.log", "the-widest-name-of-all-prints-nothing.log", "b.log"], {}))
+    sets.append(("s4", ["long.log", "the-widest-name-of-all-prints-nothing.log", "b.log", "between.log"], {}))
     # S5: microsecond stamps; consecutive messages of one file inside the same millisecond (and the same microsecond),
     #     another file's messages merged in between
     us5 = [(1000, 100), (1000, 100), (1000, 101), (1000, 999), (1001, 0), (1001, 500), (2000, 0), (2000, 1)]
@@ -257,14 +272,24 @@ def run(tier, seed, build=True):
         for sname, paths, known in sets:
             wd = os.path.join(work, sname)
             sources = []
+            malformed = None
             for p in paths:
-                s = load_source(wd, p, known.get(p))
+                try:
+                    s = load_source(wd, p, known.get(p))
+                except MalformedReference as e:
+                    malformed = str(e)
+                    res.count()
+                    res.violation({"symptom": "decorated-run-of-one-source-malformed", "sources": sname}, malformed[:400],
+                                  {"engine": "E-CLI", "args": list(oracle.DEC_ARGS) + ["-t", "+00:00", p], "tree": sname, "truth_source": p})
+                    break
                 s.is_text = not (p.endswith(".wtmp") or p.endswith(".journal") or p.endswith(".evtx"))
                 sources.append(s)
                 if s.truth_mismatch:
                     res.violation({"symptom": "datetime-field-differs-from-written-instant", "sources": sname},
                                   "%s: -u -d %%Y%%m%%dT%%H%%M%%S%%.9f prints %s for messages written at %s (epoch ns)" % (p, s.truth_mismatch[0][:6], s.truth_mismatch[1][:6]),
                                   {"engine": "E-CLI", "args": list(oracle.DEC_ARGS) + ["-t", "+00:00", p], "tree": sname, "truth_source": p})
+            if malformed:
+                continue
             use = opts if sname != "s3" else opts[::7]
             bszs = [None] if sname not in ("s5", "s6") else [None, 64]
             if sname == "s6" and tier == "quick":
@@ -334,7 +359,12 @@ def replay(path, build=True):
         wd = os.path.join(work, r["tree"])
         if r.get("truth_source"):
             known = [k for n, _p, k in sets if n == r["tree"]][0]
-            src = load_source(wd, r["truth_source"], known.get(r["truth_source"]))
+            try:
+                src = load_source(wd, r["truth_source"], known.get(r["truth_source"]))
+            except MalformedReference as e:
+                common.log(str(e)[:400])
+                common.log("VIOLATION property=%s replay=%s" % (PROP, path))
+                return common.EXIT_VIOLATION
             common.log("datetime fields vs written instants: %s" % ("differ %s" % (src.truth_mismatch,) if src.truth_mismatch else "equal"))
             if src.truth_mismatch:
                 common.log("VIOLATION property=%s replay=%s" % (PROP, path))
